@@ -68,7 +68,7 @@ IFACE = [("clk", "in", "std_logic"), ("x", "in", "unsigned(3 downto 0)"), ("b", 
 
 def gen_tree(rs, depth=0):
     kind = rs.choice(KINDS)
-    node = {"kind": kind, "k": rs.range(1, 14), "derived": rs.choice([0, 0, 0, 0, 1, 2, 3, 3]), "children": []}
+    node = {"kind": kind, "k": rs.range(1, 14), "derived": rs.choice([0, 0, 0, 0, 1, 2, 3, 3]), "mon": rs.below(4) == 0, "children": []}
     if depth < 2:
         nch = rs.weighted([(3, 0), (4, 1), (3, 2), (1, 3)]) if depth else rs.range(1, 3)
         for j in range(nch):
@@ -107,7 +107,7 @@ def cross_depth(tree, rs):
 
 
 def template_key(n):
-    return repr((n["kind"], n["k"], n["derived"], [template_key(c) for c in n["children"]], [c["wire"] for c in n["children"]]))
+    return repr((n["kind"], n["k"], n["derived"], n.get("mon"), [template_key(c) for c in n["children"]], [c["wire"] for c in n["children"]]))
 
 
 def body(node, X, B, E, Y, YB, F, p, hier, classes, L, ind="        "):
@@ -182,6 +182,9 @@ def body(node, X, B, E, Y, YB, F, p, hier, classes, L, ind="        "):
             body(ch, cx, cb, ce, cy, cyb, cf, f"{p}c{j}_", hier, classes, L, ind)
         fs += [cf, f"{p}w{j}[3]", f"{p}w{j}[0]"]
         prev_y = cy
+    if hier and node.get("mon") and n == 0:
+        # the node's OWN output port (driven by its outs context, not read by any context) is the actual of a sub-entity's input
+        a(f"{ind}Inc(x={Y}, y=Signal[Unsigned[4]]())")
     a(f"{ind}@std.concurrent")
     a(f"{ind}def {p}outs():")
     def asg(t, e):
